@@ -2,6 +2,7 @@ SPECIFICATION Spec
 CONSTANTS
   MaxHeader = 3
   MaxRows = 3
+  Part = "roundtrip"
   Bug = "first_line_only"
 INVARIANT TypeOK
 INVARIANT TableTotalExclusive
